@@ -11,6 +11,7 @@ import (
 	"runtime"
 	"strings"
 	"sync"
+	"sync/atomic"
 	"testing"
 
 	"github.com/33cn/chain33/common"
@@ -56,7 +57,11 @@ func (g *gen) c13Block() simrt.Op {
 	for i, n := 0, r.Range(3, 9); i < n; i++ {
 		switch r.Weighted(6, 3, 1, 3, 2) {
 		case 0:
-			b.Sub = append(b.Sub, g.c11Prog(g.sender(), g.pickName(), false))
+			pr := g.c11Prog(g.sender(), g.pickName(), false)
+			if r.Chance(1, 8) {
+				pr.Sub = append([]simrt.Op{{K: "x:envfail"}}, pr.Sub...)
+			}
+			b.Sub = append(b.Sub, pr)
 		case 1:
 			x := g.xfer()
 			if g.oddTo && r.Chance(1, 2) {
@@ -66,7 +71,15 @@ func (g *gen) c13Block() simrt.Op {
 		case 2:
 			b.Sub = append(b.Sub, simrt.Op{K: "none", I: []int64{int64(g.sender()), g.next()}})
 		case 3:
-			b.Sub = append(b.Sub, g.group())
+			grp := g.group()
+			// the contract of a later member may hit a transient environment fault
+			if r.Chance(1, 2) && len(grp.Sub) > 1 {
+				m := &grp.Sub[r.Range(1, len(grp.Sub)-1)]
+				if m.K == "vm" {
+					m.Sub = append([]simrt.Op{{K: "x:envfail"}}, m.Sub...)
+				}
+			}
+			b.Sub = append(b.Sub, grp)
 		case 4:
 			b.Sub = append(b.Sub, simrt.Op{K: "mng", I: []int64{int64(r.Intn(2)), g.next(), int64(r.Intn(2)), int64(r.Intn(2))}})
 		}
@@ -542,6 +555,34 @@ func (e detEngine) compare(ctx *simrt.Ctx, opts simnode.Opts, en, twin *env, cha
 			}
 		}
 		if v := check(what, execAll(node, prev, blk)); v != nil {
+			return v
+		}
+	}
+	// A transient fault of the execution environment while the block executes
+	// (the bus times out under a contract's API call): that execution must be
+	// abandoned with an error, never turned into receipts that another execution
+	// of the same block on the same state would not produce.
+	hasEnv := false
+	for _, tx := range blk.Txs {
+		if bytes.Contains(tx.Payload, []byte(`"o":"envfail"`)) {
+			hasEnv = true
+		}
+	}
+	if hasEnv {
+		runtime.GOMAXPROCS(1)
+		hits0 := atomic.LoadInt32(&EnvFaultHits)
+		atomic.StoreInt32(&EnvFaultArmed, 1)
+		o := execAll(en.n, prev, blk)
+		atomic.StoreInt32(&EnvFaultArmed, 0)
+		ctx.Fault("transient_env_fault_during_exec")
+		if atomic.LoadInt32(&EnvFaultHits) > hits0 {
+			if strings.HasPrefix(o.errs, "exectxlist:") {
+				ctx.Probe("env_fault_abandons_execution")
+			} else if sig, d := ref.diff(o); sig != "" {
+				return ctx.Violate("nondeterministic-exec", "env-fault-became-"+sig, "a transient environment fault (queue timeout returned to a contract) during one execution of the block did not abandon that execution: it produced %s that differ from every other execution of the same block on the same state: %s", sig, d)
+			}
+		}
+		if v := check("after an execution that hit an environment fault", execAll(en.n, prev, blk)); v != nil {
 			return v
 		}
 	}
